@@ -5,6 +5,7 @@ CONSTANTS
   D1s <- D01
   Svcs <- C04QuickSvcs
   D2s <- D01
+  NearOffsets <- Near012
   Weights <- W12
   ErrKinds <- ErrApi
   MaxErrors = 1
